@@ -77,4 +77,107 @@ Section Tail.
       destruct (Hfr (dn_name d0) (Hy _ (or_intror eq_refl)) d (or_intror Hi)) as (Hb2 & Hm2 & Hi2).
       rewrite !Hpv by congruence. unfold e2, e1. rewrite !lookup_cons_ne by congruence. reflexivity.
   Qed.
+
+  (* ---- the whole tail of an expanded loop ---- *)
+  Definition xtail (o : owl) (coll : name) (gcs : list (giv * name)) (ts : list name) : list stmt :=
+    [coll_stmt coll (bg_name (o_basic o)) (bg_inc (o_basic o))] ++ gcoll_stmts gcs ++ derived_stmts (o_derived o) ts.
+  Definition tail_env (o : owl) (coll : name) (gcs : list (giv * name)) (ts : list name) (a : env) : env :=
+    denv (o_derived o) ts
+      (colls_env w gcs ((coll, wrap32 (eval w a (EVar (bg_name (o_basic o))) + pv w a (bg_inc (o_basic o)))) :: a)).
+  Lemma exec_xtail o coll gcs ts a tr :
+    exec_block (xtail o coll gcs ts) a tr = RNext (tail_env o coll gcs ts a) tr.
+  Proof.
+    unfold xtail, tail_env. rewrite exec_block_app, exec_block_single, exec_coll_stmt, exec_block_app, exec_gcolls.
+    apply exec_derived.
+  Qed.
+
+  (* the body of an expanded loop: guard, statements, tail *)
+  Lemma xbody_split o coll cc gcs ts :
+    xbody o coll cc gcs ts = guard_stmts (o_basic o) cc (bv_of o) ++ o_stmts o ++ xtail o coll gcs ts.
+  Proof. reflexivity. Qed.
+
+  Section TailValues.
+    Variables (o : owl) (coll : name) (gcs : list (giv * name)) (ts : list name) (a : env).
+    Let i := bg_name (o_basic o).
+    Let CN := map snd gcs.
+    Let DN := map dn_name (o_derived o).
+    Hypothesis Hlen : length ts = length (o_derived o).
+    Hypothesis Hnd1 : NoDup (coll :: CN).
+    Hypothesis Hnd2 : NoDup (ts ++ DN).
+    (* the temporaries are new *)
+    Hypothesis Hfresh : forall y, In y (coll :: CN ++ ts) ->
+      y <> i /\ ~ In y (map (fun vn => gi_name (fst vn)) gcs) /\ ~ In y DN /\
+      bg_inc (o_basic o) <> PVar y /\
+      (forall v n, In (v, n) gcs -> gi_inc v <> PVar y) /\
+      (forall d, In d (o_derived o) -> y <> dn_base d /\ dn_mult d <> PVar y /\ dn_imm d <> PVar y).
+    (* a recomputed derived variable is not read by the recomputation of another one *)
+    Hypothesis Hdn : forall y, In y DN -> forall d, In d (o_derived o) ->
+      y <> dn_base d /\ dn_mult d <> PVar y /\ dn_imm d <> PVar y.
+    Hypothesis Hcoll_ts : forall y, In y (coll :: CN) -> ~ In y ts.
+
+    Let e0 := (coll, wrap32 (eval w a (EVar i) + pv w a (bg_inc (o_basic o)))) :: a.
+    Let e1 := colls_env w gcs e0.
+
+    Lemma tail_coll : lookup coll (tail_env o coll gcs ts a) = wrap32 (eval w a (EVar i) + pv w a (bg_inc (o_basic o))).
+    Proof.
+      unfold tail_env. fold i. fold e0. fold e1.
+      destruct (Hfresh coll (or_introl eq_refl)) as (_ & _ & Hd & _).
+      rewrite denv_outside; [|apply Hcoll_ts; now left|exact Hd].
+      unfold e1. rewrite colls_env_outside by (inversion Hnd1; assumption). unfold e0. apply lookup_cons_eq.
+    Qed.
+
+    Lemma tail_gcoll v n : In (v, n) gcs ->
+      lookup n (tail_env o coll gcs ts a) = wrap32 (eval w a (EVar (gi_name v)) + pv w a (gi_inc v)).
+    Proof.
+      intros Hi. unfold tail_env. fold i. fold e0. fold e1.
+      assert (HnC : In n CN) by (unfold CN; apply in_map_iff; exists (v, n); auto).
+      assert (HnF : In n (coll :: CN ++ ts)) by (right; apply in_or_app; now left).
+      destruct (Hfresh n HnF) as (_ & _ & Hd & _).
+      rewrite denv_outside; [|apply Hcoll_ts; now right|exact Hd].
+      unfold e1. rewrite (colls_env_value w gcs e0 v n); [| inversion Hnd1; assumption | exact Hi | |].
+      - assert (Hcf : In coll (coll :: CN ++ ts)) by now left.
+        destruct (Hfresh coll Hcf) as (_ & Hg & _ & _ & Hinc & _).
+        assert (E1 : eval w e0 (EVar (gi_name v)) = eval w a (EVar (gi_name v))).
+        { rewrite !eval_var. f_equal. unfold e0. apply lookup_cons_ne. intros E. apply Hg. rewrite <- E.
+          apply in_map_iff. exists (v, n). auto. }
+        assert (E2 : pv w e0 (gi_inc v) = pv w a (gi_inc v)).
+        { destruct (gi_inc v) as [z|x] eqn:Ei; [reflexivity|]. rewrite !pv_var. f_equal. unfold e0. apply lookup_cons_ne.
+          intros E. apply (Hinc v n Hi). now rewrite Ei, E. }
+        now rewrite E1, E2.
+      - intros y Hy E. assert (HyF : In y (coll :: CN ++ ts)) by (right; apply in_or_app; now left).
+        destruct (Hfresh y HyF) as (_ & Hg & _). apply Hg. rewrite E. apply in_map_iff. exists (v, n). auto.
+      - intros y x Hy Ex E. assert (HyF : In y (coll :: CN ++ ts)) by (right; apply in_or_app; now left).
+        destruct (Hfresh y HyF) as (_ & _ & _ & _ & Hinc & _). apply (Hinc v n Hi). now rewrite Ex, E.
+    Qed.
+
+    Lemma tail_outside y : y <> coll -> ~ In y CN -> ~ In y ts -> ~ In y DN ->
+      lookup y (tail_env o coll gcs ts a) = lookup y a.
+    Proof.
+      intros H1 H2 H3 H4. unfold tail_env. fold i. fold e0. fold e1. rewrite denv_outside by assumption.
+      unfold e1. rewrite colls_env_outside by assumption. unfold e0. now apply lookup_cons_ne.
+    Qed.
+
+    Lemma tail_derived d : In d (o_derived o) ->
+      eq32 (lookup (dn_name d) (tail_env o coll gcs ts a)) (pv w a (dn_mult d) * lookup (dn_base d) a + pv w a (dn_imm d)).
+    Proof.
+      intros Hd. unfold tail_env. fold i. fold e0. fold e1.
+      rewrite (denv_value (o_derived o) ts e1 d Hlen Hnd2 Hd).
+      - assert (Hout : forall y, y <> coll -> ~ In y CN -> lookup y e1 = lookup y a).
+        { intros y H1 H2. unfold e1. rewrite colls_env_outside by assumption. unfold e0. now apply lookup_cons_ne. }
+        assert (Hne : forall y, In y (coll :: CN) -> y <> dn_base d /\ dn_mult d <> PVar y /\ dn_imm d <> PVar y).
+        { intros y Hy. assert (HyF : In y (coll :: CN ++ ts)) by (destruct Hy; [now left | right; apply in_or_app; now left]).
+          destruct (Hfresh y HyF) as (_ & _ & _ & _ & _ & H). now apply H. }
+        assert (Hpv : forall p, (forall y, In y (coll :: CN) -> p <> PVar y) -> pv w e1 p = pv w a p).
+        { intros [z|x] Hp; [reflexivity|]. rewrite !pv_var. f_equal. apply Hout.
+          - intros E. apply (Hp coll); [now left | now rewrite E].
+          - intros Hc. apply (Hp x); [now right | reflexivity]. }
+        rewrite !Hpv by (intros y Hy; apply (Hne y Hy)). rewrite Hout; [reflexivity| |].
+        + intros E. destruct (Hne coll (or_introl eq_refl)) as (H & _). congruence.
+        + intros Hc. destruct (Hne (dn_base d) (or_intror Hc)) as (H & _). congruence.
+      - intros y Hy d0 Hd0. rewrite in_app_iff in Hy. destruct Hy as [Hy|Hy].
+        + assert (HyF : In y (coll :: CN ++ ts)) by (right; apply in_or_app; now right).
+          destruct (Hfresh y HyF) as (_ & _ & _ & _ & _ & H). now apply H.
+        + now apply Hdn.
+    Qed.
+  End TailValues.
 End Tail.
